@@ -244,6 +244,11 @@ func c19Cached(c *mon.Ctx, r *mon.Rand) {
 				switch r.Intn(4) {
 				case 0:
 					lo, hi := r.FiniteFloat(), r.FiniteFloat()
+					if r.Bool() {
+						// a small pool of bounds, shared with the duration buckets (in seconds),
+						// so that lookups repeat and the two kinds meet on one handle
+						lo, hi = []float64{0, 0.5, 1, 2}[r.Intn(4)], []float64{1, 2, 3}[r.Intn(3)]
+					}
 					call := fmt.Sprintf("histogram(%q).ValueBucket(%v,%v)", h.name, lo, hi)
 					ops = append(ops, call)
 					b := h.h.ValueBucket(lo, hi)
@@ -251,6 +256,9 @@ func c19Cached(c *mon.Ctx, r *mon.Rand) {
 					hs = append(hs, &c19Handle{kind: "bucketv", name: h.name, tags: h.tags, bv: b, lo: lo, hi: hi})
 				case 1:
 					lo, hi := r.AnyDuration(), r.AnyDuration()
+					if r.Bool() {
+						lo, hi = []time.Duration{0, 500 * time.Millisecond, time.Second, 2 * time.Second}[r.Intn(4)], []time.Duration{time.Second, 2 * time.Second, 3 * time.Second}[r.Intn(3)]
+					}
 					call := fmt.Sprintf("histogram(%q).DurationBucket(%d,%d)", h.name, lo, hi)
 					ops = append(ops, call)
 					b := h.h.DurationBucket(lo, hi)
